@@ -34,12 +34,19 @@ structure Cfg where
   reserveComparesAligned : Bool
   /-- F08: malloc(…, src, use_host_pointer) does not mark the buffer wrapped -/
   hostPtrCounted : Bool
+  /-- F06c: resize()/setAlignment() re-insert the reservations into the std::set after setPtr has
+      changed the keys.  The model represents the set by a list and finds a reservation by its
+      identity; that is a sound picture of `reservations.find(mem)` only while the tree is ordered
+      consistently with its comparator, which this repair guarantees (no other model statement
+      depends on the flag). -/
+  setRebuiltAfterPacking : Bool
 deriving Repr, DecidableEq
 
 /-- all repairs present -/
 def Cfg.Fixed (c : Cfg) : Prop :=
   c.reservePacks = true ∧ c.resizeBlocksAligned = true ∧ c.sweepAccumulatesGaps = true ∧
-  c.reserveComparesAligned = true ∧ c.hostPtrCounted = true ∧ 0 < c.defaultAlign
+  c.reserveComparesAligned = true ∧ c.hostPtrCounted = true ∧ c.setRebuiltAfterPacking = true ∧
+  0 < c.defaultAlign
 
 instance (c : Cfg) : Decidable c.Fixed := by unfold Cfg.Fixed; exact inferInstance
 
@@ -164,7 +171,10 @@ def findSlot (k : Nat) : List Resv → Option Resv
 /-- `modeMemoryPool_t::removeModeMemoryRef` -/
 def Pool.removeRef (c : Cfg) (p : Pool) (m : Resv) : Pool :=
   let rest := eraseSlot m.slot p.resv
-  { p with reserved := p.reserved - spanDelta c p.align m rest, resv := rest }
+  let delta := spanDelta c p.align m rest
+  -- `reserved -= delta` on a udim_t: wraps modulo 2^64 when delta > reserved (only before F07)
+  { p with reserved := if delta ≤ p.reserved then p.reserved - delta else p.reserved + 2 ^ 64 - delta,
+           resv := rest }
 
 /-! ### packing (the block sweep of resize and setAlignment) -/
 
@@ -548,7 +558,8 @@ def step (c : Cfg) (s : State) : Op → State × Res
     else
       match s.readSlot j with
       | none => (s, .badOp)
-      | some b => if b.length = 0 then (s, .empty) else (s.newBuf k b.length true b, .ok)
+      -- a zero-byte clone: malloc returns an uninitialised memory and clone's setDtype throws
+      | some b => if b.length = 0 then (s, .err) else (s.newBuf k b.length true b, .ok)
   | .freeall =>
     let s1 := releaseAllFrom c s NSLOT
     ((s1.freePool 0).freePool 1, .ok)
